@@ -30,7 +30,7 @@ Sig(r) ==
          \o "|noss=" \o TF(K_NoSetstate(r.scn))
          \o "|nods=" \o TF(\E c \in OptNodes(r.scn) : ~r.scn.g[c].ds)
          \o "|sib=" \o MaxSib(r.scn) \o "|free=" \o TF(K_Free(r.scn)) \o "|stale=" \o TF(K_Stale(r.scn))
-         \o "|patched=" \o TF(AnyPatch(r.scn)) \o "|injected=" \o TF(AnyInjected(r.scn)) \o "|par=" \o TF(r.scn.par)
+         \o "|patched=" \o TF(AnyPatch(r.scn)) \o "|injected=" \o TF(AnyInjected(r.scn)) \o "|par=" \o TF(r.scn.par) \o "|deep=" \o TF(K_DeepPatch(r.scn))
 
 Chk(name, ok) == ok \/ PrintT(<<"FAIL", Recs[i].id, name, Sig(Recs[i])>>)
 JInv == CASE Which = "C13" ->
@@ -47,4 +47,5 @@ JInv == CASE Which = "C13" ->
                /\ Chk("C15_Delivery", C15_Delivery(Recs[i]))
                /\ Chk("C15_OnlyAddressed", C15_OnlyAddressed(Recs[i]))
                /\ Chk("C15_Independent", C15_Independent(Recs[i]))
+               /\ Chk("C15_NoResidue", C15_NoResidue(Recs[i]))
 =============================================================================
